@@ -89,7 +89,7 @@ value-less `var` declarations removed, receiver `$r`, locals `$1…` per functio
 `Model/PullReader.lean` follows `readMessage`, readHeader, readMessageV1, readMessageV2, markRead / unwindStack;
 `Model/ByteReader.lean` follows the byte-level rest. -/
 theorem decoder_text :
-    Gen.decoderFacts.decoderText = "readMessage { if $r.empty { $1 = RequestTimedOut return } for { must($r.$f1()) if $r.header.magic != 2 || $r.count != 0 { break } } switch $r.header.magic { case 0, 1: $2, $3, $4, $1 = $r.$f2($5, $6, $7) $8 = -1 case 2: $2, $8, $3, $4, $1 = $r.$f3($5, $6, $7) default: $1 = $r.header.$f4() } return } ;; $f1 { if $r.count > 0 { return } $r.header = messagesHeader{} must($r.$f5(&$r.header.firstOffset)) must($r.$f6(&$r.header.length)) must($r.$f6(&$1)) must($r.$f7(&$r.header.magic)) switch $r.header.magic { case 0: $r.header.crc = $1 must($r.$f7(&$r.header.v1.attributes)) $r.count = 1 $r.lengthRemain = 1 case 1: $r.header.crc = $1 must($r.$f7(&$r.header.v1.attributes)) must($r.$f5(&$r.header.v1.timestamp)) $r.count = 1 $r.lengthRemain = 1 case 2: $r.header.v2.leaderEpoch = $1 must($r.$f6(&$r.header.crc)) must($r.$f8(&$r.header.v2.attributes)) must($r.$f6(&$r.header.v2.lastOffsetDelta)) must($r.$f5(&$r.header.v2.firstTimestamp)) must($r.$f5(&$r.header.v2.lastTimestamp)) must($r.$f5(&$r.header.v2.producerID)) must($r.$f8(&$r.header.v2.producerEpoch)) must($r.$f6(&$r.header.v2.baseSequence)) must($r.$f6(&$r.header.v2.count)) $r.count = int($r.header.v2.count) $r.lengthRemain = int($r.header.length) - 49 if $r.header.v2.attributes&controlBatchMask != 0 { $r.count = 0 $r.batchEnd = $r.header.firstOffset + int64($r.header.v2.lastOffsetDelta) + 1 if $r.lengthRemain > 0 { must($r.$f9($r.lengthRemain)) } } if $r.count == 0 { $r.batchEnd = $r.header.firstOffset + int64($r.header.v2.lastOffsetDelta) + 1 } default: $2 = $r.header.$f4() return } return } ;; $f2 { for $r.readerStack != nil { if $r.remain == 0 { $r.readerStack = $r.parent continue } must($r.$f1()) $1 = $r.header.firstOffset $2 = $r.header.v1.timestamp $3 = must($r.header.$f10()) if $3 != nil { must($r.$f9(4)) $r.decompressed.Reset() must($r.$f11(func($4 *bufio.Reader, $5 int, $6 int) ($7 int, $8 error) { $r.decompressed.Grow(4 * $6) $9 := io.LimitedReader{R: $4, N: int64($6)} $10 := $3.NewReader(&$9) _, $8 = $r.decompressed.ReadFrom($10) $7 = $5 - ($6 - int($9.N)) $10.Close() return })) $1 = must($f12($1, $r.decompressed.Bytes())) $11 := $r.header.magic == 1 && $r.header.v1.attributes&timestampTypeMask != 0 $r.$f13() $r.readerStack = &readerStack{reader: bufio.NewReaderSize($r.decompressed, 0), remain: $r.decompressed.Len(), base: $1, parent: $r.readerStack, logAppendTime: $2, hasLogAppendTime: $11} continue } $1 += $r.base if $r.hasLogAppendTime { $2 = $r.logAppendTime } if $1 < $12 { must($r.$f14()) must($r.$f14()) $r.$f13() continue } must($r.$f11($13)) must($r.$f11($14)) $r.$f13() return } $8 = errShortRead return } ;; $f3 { must($r.$f1()) if $r.count == int($r.header.v2.count) { $1 = must($r.header.$f10()) if $1 != nil { $2 := int($r.header.length - 49) if $2 > $r.remain { $3 = errShortRead return } if $2 < 0 { $3 = fmt.Errorf(\"batch remain < 0 (%d)\", $2) return } $r.decompressed.Reset() $r.decompressed.Grow(4 * $2) $4 := io.LimitedReader{R: $r.reader, N: int64($2)} $5 := $1.NewReader(&$4) _, $3 = $r.decompressed.ReadFrom($5) $5.Close() if $3 != nil { return } $r.remain -= $2 - int($4.N) $r.readerStack = &readerStack{reader: bufio.NewReaderSize($r.decompressed, 0), remain: $r.decompressed.Len(), base: -1, parent: $r.readerStack, header: $r.header, count: $r.count} $r.readerStack.parent.count = 0 } } $6 := $r.remain must($r.$f15(&$7)) $8 := $6 - $r.remain must($r.$f7(&$9)) must($r.$f15(&$10)) $11 = $r.header.v2.firstTimestamp + $10 if $r.header.v2.attributes&timestampTypeMask != 0 { $11 = $r.header.v2.lastTimestamp } must($r.$f15(&$12)) $13 = $r.header.firstOffset + $12 must($r.$f16($14)) must($r.$f16($15)) must($r.$f15(&$16)) if $16 > 0 { $17 = make([]Header, $16) for $18 := range $17 { must($r.$f17(&$17[$18])) } } $19 = $r.header.firstOffset + int64($r.header.v2.lastOffsetDelta) $r.lengthRemain -= int($7) + $8 if $r.count == 1 { $r.batchEnd = $19 + 1 } $r.$f13() return } ;; $f4 { return fmt.Errorf(\"unsupported magic byte %d in header\", $r.magic) } ;; $f5 { $r.remain, $1 = $f18($r.reader, $r.remain, $2) return } ;; $f6 { $r.remain, $1 = $f19($r.reader, $r.remain, $2) return } ;; $f7 { $r.remain, $1 = $f20($r.reader, $r.remain, $2) return } ;; $f8 { $r.remain, $1 = $f21($r.reader, $r.remain, $2) return } ;; $f9 { $r.remain, $1 = $f22($r.reader, $r.remain, $2) return } ;; $f10 { const $1 = 0x07 switch $r.magic { case 0, 1: $2 = $r.v1.attributes & $1 case 2: $2 = int8($r.v2.attributes & $1) default: $3 = $r.$f4() return } if $2 != 0 { $4, $3 = resolveCodec($2) } return } ;; $f11 { $r.remain, $1 = $f23($r.reader, $r.remain, $2) return } ;; $f12 { $1, $2 := bufio.NewReader(bytes.NewReader($3)), len($3) for $2 > 0 { $2 = must($f18($1, $2, &$4)) $2 = must($f19($1, $2, &$5)) $2 = must($f22($1, $2, int($5))) } $4 = $6 - $4 return } ;; $f13 { if $r.count == 0 { panic(\"markRead: negative count\") } $r.count-- $r.$f24() } ;; $f14 { $r.remain, $1 = $f25($r.reader, $r.remain) return } ;; $f15 { $r.remain, $1 = $f26($r.reader, $r.remain, $2) return } ;; $f16 { must($r.$f15(&$1)) $r.remain = must($2($r.reader, $r.remain, int($1))) return } ;; $f17 { must($r.$f15(&$1)) $2.Key = must($r.$f27(int($1))) must($r.$f15(&$3)) $2.Value = must($r.$f28(int($3))) return nil } ;; $f18 { return $f29($1, $2, 8, func($3 []byte) { *$4 = makeInt64($3) }) } ;; $f19 { return $f29($1, $2, 4, func($3 []byte) { *$4 = makeInt32($3) }) } ;; $f20 { return $f29($1, $2, 1, func($3 []byte) { *$4 = makeInt8($3) }) } ;; $f21 { return $f29($1, $2, 2, func($3 []byte) { *$4 = makeInt16($3) }) } ;; $f22 { if $1 <= $2 { $1, $3 = $4.Discard($1) } else { $1, $3 = $4.Discard($2) if $3 == nil { $3 = errShortRead } } return $2 - $1, $3 } ;; $f23 { if $1, $2 = $f30($3, $1, &$4); $2 != nil { return $1, $2 } if $4 > $1 { return $1, errShortRead } return $5($3, $1, $4) } ;; $f24 { for $r.count == 0 { if $r.remain == 0 { if $r.parent != nil { $r.readerStack = $r.parent continue } } break } } ;; $f25 { return $f23($1, $2, func($1 *bufio.Reader, $2 int, $3 int) (int, error) { if $3 < 0 { return $2, nil } return $f22($1, $2, $3) }) } ;; $f26 { $1, _ := $2.Peek($2.Buffered()) $3 := uint64(0) $4 := uint(0) for { if len($1) > $5 { $1 = $1[:$5] } for $6, $7 := range $1 { if $7 < 0x80 { $3 |= uint64($7) << $4 *$8 = int64($3>>1) ^ -(int64($3) & 1) $9, $10 := $2.Discard($6 + 1) return $5 - $9, $10 } $3 |= uint64($7&0x7f) << $4 $4 += 7 } $9, _ := $2.Discard(len($1)) $5 -= $9 if $5 == 0 { return 0, errShortRead } if _, $10 := $2.Peek(1); $10 != nil { if errors.Is($10, io.EOF) { $10 = errShortRead } return $5, $10 } $1, _ = $2.Peek($2.Buffered()) } } ;; $f27 { $1, $r.remain, $2 = $f31($r.reader, $r.remain, $3) return } ;; $f28 { $1, $r.remain, $2 = readMessageBytes($r.reader, $r.remain, $3) return } ;; $f29 { if $1 > $2 { return $2, errShortRead } $3, $4 := $5.Peek($1) if $4 != nil { return $2, $4 } $6($3) return $f22($5, $2, $1) } ;; $f30 { if $1, $2 = $f19($3, $1, &$4); $2 != nil { return $1, $2 } *$5 = int($4) return $1, nil } ;; $f31 { $1, $2, $3 := $f32($4, $2, $5) return string($1), $2, $3 } ;; $f32 { if $1 > 0 { if $2 < $1 { $1 = $2 $3 = true } $4 = make([]byte, $1) $1, $5 = io.ReadFull($6, $4) $4 = $4[:$1] $2 -= $1 if $5 == nil && $3 { $5 = errShortRead } } return $4, $2, $5 }" := rfl
+    Gen.decoderFacts.decoderText = "readMessage { if $r.empty { $1 = RequestTimedOut return } for { must($r.$f1()) if $r.header.magic != 2 || $r.count != 0 { break } } switch $r.header.magic { case 0, 1: $2, $3, $4, $1 = $r.$f2($5, $6, $7) $8 = -1 case 2: $2, $8, $3, $4, $1 = $r.$f3($5, $6, $7) default: $1 = $r.header.$f4() } return } ;; $f1 { if $r.count > 0 { return } $r.header = messagesHeader{} must($r.$f5(&$r.header.firstOffset)) must($r.$f6(&$r.header.length)) must($r.$f6(&$1)) must($r.$f7(&$r.header.magic)) switch $r.header.magic { case 0: $r.header.crc = $1 must($r.$f7(&$r.header.v1.attributes)) $r.count = 1 $r.lengthRemain = 1 case 1: $r.header.crc = $1 must($r.$f7(&$r.header.v1.attributes)) must($r.$f5(&$r.header.v1.timestamp)) $r.count = 1 $r.lengthRemain = 1 case 2: $r.header.v2.leaderEpoch = $1 must($r.$f6(&$r.header.crc)) must($r.$f8(&$r.header.v2.attributes)) must($r.$f6(&$r.header.v2.lastOffsetDelta)) must($r.$f5(&$r.header.v2.firstTimestamp)) must($r.$f5(&$r.header.v2.lastTimestamp)) must($r.$f5(&$r.header.v2.producerID)) must($r.$f8(&$r.header.v2.producerEpoch)) must($r.$f6(&$r.header.v2.baseSequence)) must($r.$f6(&$r.header.v2.count)) $r.count = int($r.header.v2.count) $r.lengthRemain = int($r.header.length) - 49 if $r.header.v2.attributes&controlBatchMask != 0 { $r.count = 0 $r.batchEnd = $r.header.firstOffset + int64($r.header.v2.lastOffsetDelta) + 1 if $r.lengthRemain > 0 { must($r.$f9($r.lengthRemain)) } } if $r.count == 0 { $r.batchEnd = $r.header.firstOffset + int64($r.header.v2.lastOffsetDelta) + 1 } default: $2 = $r.header.$f4() return } return } ;; $f2 { for $r.readerStack != nil { if $r.remain == 0 { $r.readerStack = $r.parent continue } must($r.$f1()) $1 = $r.header.firstOffset $2 = $r.header.v1.timestamp $3 = must($r.header.$f10()) if $3 != nil { must($r.$f11()) $r.decompressed.Reset() must($r.$f12(func($4 *bufio.Reader, $5 int, $6 int) ($7 int, $8 error) { $r.decompressed.Grow(4 * $6) $9 := io.LimitedReader{R: $4, N: int64($6)} $10 := $3.NewReader(&$9) _, $8 = $r.decompressed.ReadFrom($10) $7 = $5 - ($6 - int($9.N)) $10.Close() return })) $1 = must($f13($1, $r.decompressed.Bytes())) $11 := $r.header.magic == 1 && $r.header.v1.attributes&timestampTypeMask != 0 $r.$f14() $r.readerStack = &readerStack{reader: bufio.NewReaderSize($r.decompressed, 0), remain: $r.decompressed.Len(), base: $1, parent: $r.readerStack, logAppendTime: $2, hasLogAppendTime: $11} continue } $1 += $r.base if $r.hasLogAppendTime { $2 = $r.logAppendTime } if $1 < $12 { must($r.$f11()) must($r.$f11()) $r.$f14() continue } must($r.$f12($13)) must($r.$f12($14)) $r.$f14() return } $8 = errShortRead return } ;; $f3 { must($r.$f1()) if $r.count == int($r.header.v2.count) { $1 = must($r.header.$f10()) if $1 != nil { $2 := int($r.header.length - 49) if $2 > $r.remain { $3 = errShortRead return } if $2 < 0 { $3 = fmt.Errorf(\"batch remain < 0 (%d)\", $2) return } $r.decompressed.Reset() $r.decompressed.Grow(4 * $2) $4 := io.LimitedReader{R: $r.reader, N: int64($2)} $5 := $1.NewReader(&$4) _, $3 = $r.decompressed.ReadFrom($5) $5.Close() if $3 != nil { return } $r.remain -= $2 - int($4.N) $r.readerStack = &readerStack{reader: bufio.NewReaderSize($r.decompressed, 0), remain: $r.decompressed.Len(), base: -1, parent: $r.readerStack, header: $r.header, count: $r.count} $r.readerStack.parent.count = 0 } } $6 := $r.remain must($r.$f15(&$7)) $8 := $6 - $r.remain must($r.$f7(&$9)) must($r.$f15(&$10)) $11 = $r.header.v2.firstTimestamp + $10 if $r.header.v2.attributes&timestampTypeMask != 0 { $11 = $r.header.v2.lastTimestamp } must($r.$f15(&$12)) $13 = $r.header.firstOffset + $12 must($r.$f16($14)) must($r.$f16($15)) must($r.$f15(&$16)) if $16 > 0 { $17 = make([]Header, $16) for $18 := range $17 { must($r.$f17(&$17[$18])) } } $19 = $r.header.firstOffset + int64($r.header.v2.lastOffsetDelta) $r.lengthRemain -= int($7) + $8 if $r.count == 1 { $r.batchEnd = $19 + 1 } $r.$f14() return } ;; $f4 { return fmt.Errorf(\"unsupported magic byte %d in header\", $r.magic) } ;; $f5 { $r.remain, $1 = $f18($r.reader, $r.remain, $2) return } ;; $f6 { $r.remain, $1 = $f19($r.reader, $r.remain, $2) return } ;; $f7 { $r.remain, $1 = $f20($r.reader, $r.remain, $2) return } ;; $f8 { $r.remain, $1 = $f21($r.reader, $r.remain, $2) return } ;; $f9 { $r.remain, $1 = $f22($r.reader, $r.remain, $2) return } ;; $f10 { const $1 = 0x07 switch $r.magic { case 0, 1: $2 = $r.v1.attributes & $1 case 2: $2 = int8($r.v2.attributes & $1) default: $3 = $r.$f4() return } if $2 != 0 { $4, $3 = resolveCodec($2) } return } ;; $f11 { $r.remain, $1 = $f23($r.reader, $r.remain) return } ;; $f12 { $r.remain, $1 = $f24($r.reader, $r.remain, $2) return } ;; $f13 { $1, $2 := bufio.NewReader(bytes.NewReader($3)), len($3) for $2 > 0 { $2 = must($f18($1, $2, &$4)) $2 = must($f19($1, $2, &$5)) $2 = must($f22($1, $2, int($5))) } $4 = $6 - $4 return } ;; $f14 { if $r.count == 0 { panic(\"markRead: negative count\") } $r.count-- $r.$f25() } ;; $f15 { $r.remain, $1 = $f26($r.reader, $r.remain, $2) return } ;; $f16 { must($r.$f15(&$1)) $r.remain = must($2($r.reader, $r.remain, int($1))) return } ;; $f17 { must($r.$f15(&$1)) $2.Key = must($r.$f27(int($1))) must($r.$f15(&$3)) $2.Value = must($r.$f28(int($3))) return nil } ;; $f18 { return $f29($1, $2, 8, func($3 []byte) { *$4 = makeInt64($3) }) } ;; $f19 { return $f29($1, $2, 4, func($3 []byte) { *$4 = makeInt32($3) }) } ;; $f20 { return $f29($1, $2, 1, func($3 []byte) { *$4 = makeInt8($3) }) } ;; $f21 { return $f29($1, $2, 2, func($3 []byte) { *$4 = makeInt16($3) }) } ;; $f22 { if $1 <= $2 { $1, $3 = $4.Discard($1) } else { $1, $3 = $4.Discard($2) if $3 == nil { $3 = errShortRead } } return $2 - $1, $3 } ;; $f23 { return $f24($1, $2, func($1 *bufio.Reader, $2 int, $3 int) (int, error) { if $3 < 0 { return $2, nil } return $f22($1, $2, $3) }) } ;; $f24 { if $1, $2 = $f30($3, $1, &$4); $2 != nil { return $1, $2 } if $4 > $1 { return $1, errShortRead } return $5($3, $1, $4) } ;; $f25 { for $r.count == 0 { if $r.remain == 0 { if $r.parent != nil { $r.readerStack = $r.parent continue } } break } } ;; $f26 { $1, _ := $2.Peek($2.Buffered()) $3 := uint64(0) $4 := uint(0) for { if len($1) > $5 { $1 = $1[:$5] } for $6, $7 := range $1 { if $7 < 0x80 { $3 |= uint64($7) << $4 *$8 = int64($3>>1) ^ -(int64($3) & 1) $9, $10 := $2.Discard($6 + 1) return $5 - $9, $10 } $3 |= uint64($7&0x7f) << $4 $4 += 7 } $9, _ := $2.Discard(len($1)) $5 -= $9 if $5 == 0 { return 0, errShortRead } if _, $10 := $2.Peek(1); $10 != nil { if errors.Is($10, io.EOF) { $10 = errShortRead } return $5, $10 } $1, _ = $2.Peek($2.Buffered()) } } ;; $f27 { $1, $r.remain, $2 = $f31($r.reader, $r.remain, $3) return } ;; $f28 { $1, $r.remain, $2 = readMessageBytes($r.reader, $r.remain, $3) return } ;; $f29 { if $1 > $2 { return $2, errShortRead } $3, $4 := $5.Peek($1) if $4 != nil { return $2, $4 } $6($3) return $f22($5, $2, $1) } ;; $f30 { if $1, $2 = $f19($3, $1, &$4); $2 != nil { return $1, $2 } *$5 = int($4) return $1, nil } ;; $f31 { $1, $2, $3 := $f32($4, $2, $5) return string($1), $2, $3 } ;; $f32 { if $1 > 0 { if $2 < $1 { $1 = $2 $3 = true } $4 = make([]byte, $1) $1, $5 = io.ReadFull($6, $4) $4 = $4[:$1] $2 -= $1 if $5 == nil && $3 { $5 = errShortRead } } return $4, $2, $5 }" := rfl
 
 /-! ## 0. The defects of the pinned code (`Variant.legacy`), kept as theorems about the legacy model
 
@@ -248,6 +248,17 @@ theorem message_bytes (m : Spec.RB.Msg) (hk : RW.InRange RW.M32 (Spec.RB.optLen 
     (hv : RW.InRange RW.M32 (Spec.RB.optLen m.value : Int)) :
     BR.AllOrShort BR.readBodyV1 (encB1 m) (m.key, m.value) ∧ BR.AllOrShort BR.skipBodyV1 (encB1 m) () :=
   ⟨BR.readBodyV1_spec m hk hv, BR.skipBodyV1_spec m hk hv⟩
+
+/-- `wrapper_bytes`: the body of a compressed v0/v1 wrapper message (readMessageV1, `codec != nil`: `discardBytes()`,
+`readBytesWith(decompress)`): whatever key the wrapper carries — null as producers write it, or any other; the pinned
+code skipped exactly four bytes there (C05-D31, fixed by the records builder) — it is passed over, and what the codec
+is handed are exactly the bytes of the compressed inner set; all of the body is consumed, and a body cut anywhere gives
+errShortRead. -/
+theorem wrapper_bytes (enc : Int → Bytes → Bytes) (crc : Bytes → Nat) (m : Spec.RB.Msg) (codec : Int)
+    (inner : List Spec.RB.Msg) (hk : RW.InRange RW.M32 (Spec.RB.optLen m.key : Int))
+    (hv : RW.InRange RW.M32 ((enc codec (encMsgs crc inner)).length : Int)) :
+    BR.AllOrShort BR.readWrapV1 (encB1 (wrapMsg enc crc m codec inner)) (some (enc codec (encMsgs crc inner))) :=
+  BR.readWrapV1_spec (wrapMsg enc crc m codec inner) hk (by simpa [wrapMsg, Spec.RB.optLen] using hv)
 
 /-! ### the decoder as the Go code is written (Model/PullReader.lean)
 
@@ -494,7 +505,11 @@ layout `items`; a fetch at conn offset `q` is answered under the fetch contract 
 containing `q`, the first one whole, then as far as the byte budget reaches) or the connection is lost after any number
 `n` of bytes; what arrives is read by the statement-level model of message_reader.go / batch.go (`Pull.readAll`); the
 result is the event fed to `rstep`.  All other events (sleeps, initialize, partition errors, I/O errors, cancellation)
-stay free.  The one assumption left (`Env.ok`): a first offset reported by the broker is not above a stored record. -/
+stay free.  The one assumption left (`Env.ok`): a first offset reported by the broker is not above a stored record.
+The partition may be **written to while it is read**: `fetchSnap m …` is a fetch answered at a moment when only the first
+`m` batches / messages of `items` are stored (appends only).  Such an answer is an answer from the final layout cut after
+fewer bytes (`serve_take`), so every theorem below speaks about a live partition, `items` being what it will hold in the
+end: at every moment the loop has pushed exactly the records of the final log between its start offset and `offset`. -/
 
 /-- `reader_end_to_end`: for every well-formed layout (formats 0/1/2, compression, holes, empty batches), every start
 offset and **every** sequence of environment moves — byte budgets, high watermarks, deadline expiries, connections lost
@@ -568,6 +583,11 @@ theorem reader_no_starvation (cfg : RCfg) (items : List Item) (nb : Int) (hnb : 
   have h := rinv_world_run cfg items nb hnb hwf xs _ (rinv_init (allRecords items) o0 ho) hx
   exact catch_up cfg items nb hnb hwf hwm hh moves _ h
     (Or.inr ⟨hr, Nat.le_trans (dropBefore_length_le _ items) hk⟩)
+
+/-- a partition that is being written to: the first fetch sees one batch, the second the next one as well -/
+example : (worldRun {} [.b2 3 4 false 24 [(0, 1, 12), (1, 2, 12)], .b2 5 9 true 30 [(0, 3, 20), (4, 4, 20)]] { offset := -2 }
+    [.initOk 3 5, .sleepOk, .fetchSnap 1 1000 5 false, .sleepOk, .fetchSnap 1 1000 5 false, .sleepOk,
+     .fetchSnap 2 1000 10 false]).msgs = [(3, 1), (4, 2), (5, 3), (9, 4)] := by decide
 
 /-- a run with a connection lost in the middle of a compressed batch and a re-initialisation -/
 example : (worldRun {} [.b2 3 4 false 24 [(0, 1, 12), (1, 2, 12)], .b2 5 9 true 30 [(0, 3, 20), (4, 4, 20)]] { offset := -2 }
@@ -722,9 +742,11 @@ backoff) and the decoder as written; what a loop pushes goes into the queue with
 `SetOffset(o)` (also the lazy start), a blocking call of any fetcher's loop — current or superseded — returning with
 whatever the world does, `FetchMessage`. -/
 
-/-- every reachable state of the system satisfies the invariant the theorems below start from -/
+/-- every reachable state of the system satisfies the invariant the theorems below start from.  `OkRun`: a first offset
+the broker reports is not above a stored record (`Env.ok`), and the `l` of a `setOffsetLast l` is what the broker then
+reports as log end to that fetcher (`CEv.okAt`). -/
 theorem reader_reachable (cfg : RCfg) (items : List Item) (nb : Int) (hnb : 0 ≤ nb) (hwf : LWF nb items) (es : List CEv)
-    (hok : ∀ e ∈ es, e.ok items) (c : CS) (ms : List Rec) (hr : crun cfg items {} es = some (c, ms)) : CInv items c :=
+    (hok : OkRun cfg items {} es) (c : CS) (ms : List Rec) (hr : crun cfg items {} es = some (c, ms)) : CInv items c :=
   (crun_sim cfg items nb hnb hwf es {} c ms (cinv_init items) hok hr).1
 
 /-- **C02**: in any reachable state of the Reader, after `SetOffset(o)` (an absolute offset or FirstOffset) the
@@ -733,18 +755,35 @@ above `o`: `ms = take |ms| (feed log o)`.  For every well-formed layout of the p
 holes, empty batches), every interleaving of FetchMessage with the loops' steps, every behaviour of broker (under the
 fetch contract), network and clock, whatever the superseded fetchers still do and whatever is still queued. -/
 theorem reader_delivers (cfg : RCfg) (items : List Item) (nb : Int) (hnb : 0 ≤ nb) (hwf : LWF nb items) (c0 c' : CS)
-    (h0 : CInv items c0) (o : Int) (ho : -2 ≤ o ∧ o ≠ -1) (es : List CEv) (hok : ∀ e ∈ es, e.ok items)
+    (h0 : CInv items c0) (o : Int) (es : List CEv) (hok : OkRun cfg items c0 (.setOffset o :: es))
     (hns : ∀ e ∈ es, e.notSet) (ms : List Rec) (hr : crun cfg items c0 (.setOffset o :: es) = some (c', ms)) :
     ms = (feed (allRecords items) o).take ms.length := by
-  obtain ⟨es', hn, hf⟩ := crun_after_set cfg items nb hnb hwf c0 c' h0 o ho es hok hns ms hr
+  obtain ⟨es', hn, hf⟩ := crun_after_set cfg items nb hnb hwf c0 c' h0 o es hok hns ms hr
   exact setoffset_delivers (allRecords items) c0.fs c'.fs h0.finv o es' hn ms hf
+
+/-- … and after `SetOffset(LastOffset)` (or for a Reader configured to start there): the messages returned are, in order,
+without gap or repetition, the stored records at or above the log end `l` the broker reported when the fetcher first
+connected — through every later fault and reconnect (the loop reconnects at absolute offsets from then on). -/
+theorem reader_delivers_last (cfg : RCfg) (items : List Item) (nb : Int) (hnb : 0 ≤ nb) (hwf : LWF nb items) (c0 c' : CS)
+    (h0 : CInv items c0) (l : Int) (es : List CEv) (hok : OkRun cfg items c0 (.setOffsetLast l :: es))
+    (hns : ∀ e ∈ es, e.notSet) (ms : List Rec) (hr : crun cfg items c0 (.setOffsetLast l :: es) = some (c', ms)) :
+    ms = (feed (allRecords items) l).take ms.length := by
+  obtain ⟨es', hn, hf⟩ := crun_after_set_last cfg items nb hnb hwf c0 c' h0 l es hok hns ms hr
+  exact setoffset_delivers (allRecords items) c0.fs c'.fs h0.finv l es' hn ms hf
 
 /-- … from the very start: a Reader configured with start offset `o` -/
 theorem reader_delivers_from_start (cfg : RCfg) (items : List Item) (nb : Int) (hnb : 0 ≤ nb) (hwf : LWF nb items) (c' : CS)
-    (o : Int) (ho : -2 ≤ o ∧ o ≠ -1) (es : List CEv) (hok : ∀ e ∈ es, e.ok items) (hns : ∀ e ∈ es, e.notSet)
+    (o : Int) (es : List CEv) (hok : OkRun cfg items {} (.setOffset o :: es)) (hns : ∀ e ∈ es, e.notSet)
     (ms : List Rec) (hr : crun cfg items {} (.setOffset o :: es) = some (c', ms)) :
     ms = (feed (allRecords items) o).take ms.length :=
-  reader_delivers cfg items nb hnb hwf {} c' (cinv_init items) o ho es hok hns ms hr
+  reader_delivers cfg items nb hnb hwf {} c' (cinv_init items) o es hok hns ms hr
+
+/-- a Reader started at LastOffset: the broker reports log end 5 on the first connection; after a lost connection the
+second `initialize` reports 10 — irrelevant, the loop reconnects at its absolute offset; FetchMessage returns 5, 9 -/
+example : (crun {} [.b2 3 4 false 24 [(0, 1, 12), (1, 2, 12)], .b2 5 9 true 30 [(0, 3, 20), (4, 4, 20)]] {}
+    [.setOffsetLast 5, .env 1 (.initOk 3 5), .env 1 .sleepOk, .env 1 (.lost 70 10 false), .env 1 .sleepOk,
+     .env 1 (.initOk 3 10), .env 1 .sleepOk, .env 1 (.fetch 1000 10 false), .fetch, .fetch]).map (·.2)
+    = some [(5, 3), (9, 4)] := by decide
 
 /-- a run of the whole system: start at FirstOffset, a fetch round, SetOffset(5) while two messages are queued, the
 superseded loop still pushes a round, the new one starts inside the compressed batch; FetchMessage returns 5, 9 -/
@@ -759,7 +798,9 @@ example : (crun {} [.b2 3 4 false 24 [(0, 1, 12), (1, 2, 12)], .b2 5 9 true 30 [
 first fetcher at `Offset()`): in every reachable state, whatever the loops, the broker, the network and the superseded
 fetchers have done and do,
 * `FetchMessage` returns **the first stored record at or above `Offset()`**, and `Offset()` becomes its offset + 1;
-* `SetOffset(o)` makes `Offset() = o`, a step of a loop leaves it alone.
+* `SetOffset(o)` makes `Offset() = o`, a step of a loop leaves it alone;
+* after `Close` nothing is handed out any more (FetchMessage = io.EOF, SetOffset = io.ErrClosedPipe: the state does not
+  move), whatever is still queued and whatever the loops still push while they wind down.
 Exactly-once, in-order, gap-free delivery from the position is the iteration of the first clause. -/
 theorem reader_api (cfg : RCfg) (items : List Item) (nb : Int) (hnb : 0 ≤ nb) (hwf : LWF nb items) (o : Int)
     (ho : -2 ≤ o ∧ o ≠ -1) (es : List AEv) (hok : ∀ e ∈ es, e.ok items) (a : AS) (ms : List Rec)
@@ -773,5 +814,11 @@ example : (arun {} [.b2 3 4 false 24 [(0, 1, 12), (1, 2, 12)], .b2 5 9 true 30 [
     [.fetch, .env 1 (.initOk 3 10), .env 1 .sleepOk, .env 1 (.fetch 10 10 false), .fetch, .fetch, .setOffset 5,
      .env 1 .sleepOk, .env 1 (.fetch 1000 10 false), .setOffset 9, .env 2 (.initOk 3 10), .env 2 .sleepOk,
      .env 2 (.fetch 10 10 true), .fetch]).map (fun p => (p.2, p.1.pos)) = some ([(3, 1), (4, 2), (9, 4)], 10) := by decide
+
+/-- a run with Close: two messages, Close, the loop still pushes a round, FetchMessage hands out nothing more -/
+example : (arun {} [.b2 3 4 false 24 [(0, 1, 12), (1, 2, 12)], .b2 5 9 true 30 [(0, 3, 20), (4, 4, 20)]] { pos := -2 }
+    [.fetch, .env 1 (.initOk 3 10), .env 1 .sleepOk, .env 1 (.fetch 10 10 false), .fetch, .fetch, .close,
+     .env 1 .sleepOk, .env 1 (.fetch 1000 10 false), .fetch, .setOffset 3, .fetch]).map (fun p => (p.2, p.1.pos, p.1.closed))
+    = some ([(3, 1), (4, 2)], 5, true) := by decide
 
 end KV.C02
